@@ -1,5 +1,8 @@
 #!/bin/bash
-# builds the two extractors offline; see DESIGN.md section 3
+# builds the extractors offline; see DESIGN.md section 3
 set -e
 cd "$(dirname "$0")"
-exit 0
+export CARGO_NET_OFFLINE=true
+(cd factdump && cargo build --release --offline 2>&1 | tail -3)
+if [ -d tmplx ]; then (cd tmplx && cargo build --release --offline 2>&1 | tail -3); fi
+test -x factdump/target/release/factdump
